@@ -164,7 +164,11 @@ def reqs_mhistory(case):
 
 def judge_mhistory(ctx, case, resp):
     r = resp[0]
-    if "panic" in r or "died" in r or "timeout" in r:
+    if "timeout" in r and "panic" not in r and "died" not in r:
+        # see C04: a generated model can be legitimately slow; not this property's subject
+        ctx.note(key=h(case), labels=["timeout: not judged (slow generated model)"])
+        return None
+    if "panic" in r or "died" in r:
         ctx.note(key=h(case), labels=["crash(C12)"])
         return Fail("C13/crash@%s" % r.get("location", "?"), "model history crashed: %r" % (r,))
     if "steps" not in r:
@@ -194,6 +198,52 @@ def judge_mhistory(ctx, case, resp):
     return None
 
 
+DEPTHS = [2, 20, 100, 200, 250, 254, 255, 256, 257, 258, 300, 400]
+
+
+def deep_text(shape, n):
+    """one construct that pushes a temporary context, nested n deep around x + y"""
+    if shape == "context":
+        t = "x + y"
+        for i in range(n):
+            t = "{c%d: %s}.c%d" % (i % 7, t, i % 7)
+        return t
+    if shape == "for":
+        t = "x + y"
+        for i in range(n):
+            t = "(for i%d in [1] return %s)[1]" % (i % 7, t)
+        return t
+    if shape == "some":
+        t = "x + y > 0"
+        for i in range(n):
+            t = "some i%d in [1] satisfies %s" % (i % 7, t)
+        return t
+    if shape == "function":
+        t = "x + y"
+        for i in range(n):
+            t = "(function(p%d) %s)(%d)" % (i % 7, t, i)
+        return t
+    if shape == "mixed":
+        t = "x + y"
+        for i in range(n):
+            t = ["{c: %s}.c", "(for i in [1] return %s)[1]", "(function(p) %s)(1)", "if every i in [1] satisfies i = 1 then %s else 0"][i % 4] % t
+        return t
+    raise ValueError(shape)
+
+
+def enum_deep(ctx):
+    """deep nesting of the constructs that push temporary contexts: every one of them is pushed and popped exactly once, however deep"""
+    scopes = [[[["x", {"n": "10"}], ["y", {"n": "20"}]], [["z", {"n": "30"}]]], [[["x", {"n": "1"}], ["y", {"n": "2"}], ["z", {"n": "3"}]]]]
+    for n in DEPTHS:
+        for shape in ("context", "for", "some", "function", "mixed"):
+            deep = deep_text(shape, n)
+            exprs = [{"text": "x + y + z", "scope": 0, "pushes": []}, {"text": deep, "scope": 0, "pushes": ["deep:" + shape]},
+                     {"text": deep, "scope": 1, "pushes": ["deep:" + shape]}]
+            ops = [["eval", 0, 0], ["eval", 1, 0], ["eval", 0, 0], ["eval", 1, 0], ["eval", 2, 1], ["eval", 0, 1], ["eval", 1, 0],
+                   ["parse", deep, "expression", 0], ["eval", 0, 0], ["eval", 2, 1], ["eval", 0, 1]]
+            yield {"scopes": scopes, "exprs": exprs, "ops": ops, "deep": [shape, n]}
+
+
 def setup(ctx):
     ctx.rule = ("histories: 2-5 prepared core-fragment expressions (biased to constructs that push temporary contexts) x 2-4 scopes of different "
                 "stack shape x 5-40 interleaved evaluate/parse steps; invariants after every step: every scope renders exactly as initially, "
@@ -203,9 +253,11 @@ def setup(ctx):
     ctx.assumptions = ["Scope::to_string() renders every context and entry of the stack (byte comparison)"]
     ctx.p_hist = ctx.register(Part("history", gen_history, reqs_history, judge_history))
     ctx.p_mhist = ctx.register(Part("model-history", gen_mhistory, reqs_mhistory, judge_mhistory))
+    ctx.p_deep = ctx.register(Part("deep", None, reqs_history, judge_history))
 
 
 def run(ctx):
+    ctx.enumerate(ctx.p_deep, enum_deep(ctx), batch=5, name="constructs that push a context, nested %s deep, in a fixed history" % DEPTHS, exhaustive=True)
     ctx.forall(ctx.p_hist, ctx.scale(20000, 400000), batch=50)
     ctx.forall(ctx.p_mhist, ctx.scale(8000, 160000), batch=25)
     if ctx.thorough() and ctx.w == 0:
